@@ -89,19 +89,28 @@ def make_noises(rng, d):
     return process, sensor
 
 
-def compile_ekf(d, process, sensor, cal, rng=None, cse=True, filtering=None, max_dt=0.1, container="set", model_obj=None):
+def compile_ekf(d, process, sensor, cal, rng=None, cse=True, filtering=None, max_dt=0.1, container="set", model_obj=None,
+                maps=None, extra_validation=False, ui_kwargs=None):
+    """`maps`: a dict that receives the very objects handed to the library (ui model, noise / sensor / calibration dicts) - or, when
+    it already holds them, supplies them again (the SAME objects for a second filter)"""
     from formak import python
     core.set_tolerance(getattr(d, "transcend", False))
-    m = model_obj if model_obj is not None else fk.ui_model(d, rng, container)
-    sensors = {k: dict(rd) for k, rd in d.sensors.items()}
+    maps = maps if maps is not None else {}
+    m = model_obj if model_obj is not None else maps.get("model") or fk.ui_model(d, rng, container, **(ui_kwargs or {}))
+    maps.setdefault("model", m)
+    maps.setdefault("sensor_models", {k: dict(rd) for k, rd in d.sensors.items()})
+    maps.setdefault("process_noise", {sympy.Symbol(n): float(v) for n, v in process.items()})
+    maps.setdefault("sensor_noises", {k: {r: float(v) for r, v in rd.items()} for k, rd in sensor.items()})
+    maps["calibration_map"] = maps.get("calibration_map_override") or {s: float(cal[s.name]) for s in d.calibration}
     with fk.quiet():
         return python.compile_ekf(
             m,
-            process_noise={sympy.Symbol(n): float(v) for n, v in process.items()},
-            sensor_models=sensors,
-            sensor_noises={k: {r: float(v) for r, v in rd.items()} for k, rd in sensor.items()},
-            calibration_map={s: float(cal[s.name]) for s in d.calibration},
-            config=python.Config(common_subexpression_elimination=cse, innovation_filtering=filtering, max_dt_sec=max_dt),
+            process_noise=maps["process_noise"],
+            sensor_models=maps["sensor_models"],
+            sensor_noises=maps["sensor_noises"],
+            calibration_map=maps["calibration_map"],
+            config=python.Config(common_subexpression_elimination=cse, innovation_filtering=filtering, max_dt_sec=max_dt,
+                                 extra_validation=extra_validation),
         )
 
 
@@ -122,6 +131,9 @@ def point_json(pt):
 
 
 def is_rational(d) -> bool:
+    # binary floating-point coefficients are not exact rationals of the definition: the generators round them when they print them
+    if any(sympy.sympify(e).atoms(sympy.Float) for e in list(d.state_model.values()) + [e for rd in d.sensors.values() for e in rd.values()]):
+        return False
     try:
         js = [gen.expr_json(e) for e in d.state_model.values()] + [gen.expr_json(e) for rd in d.sensors.values() for e in rd.values()]
     except gen.Untranslatable:
@@ -139,6 +151,14 @@ def subs_map(d, pt):
     return sub
 
 
+def exactify(e):
+    """binary floating-point coefficients replaced by the exact rationals they are (so that the oracle computes with the very
+    numbers the definition contains, without sympy's 15-digit Float arithmetic or nsimplify's guesses)"""
+    e = sympy.sympify(e)
+    fl = e.atoms(sympy.Float)
+    return e.xreplace({f: sympy.Rational(*F(float(f)).as_integer_ratio()) for f in fl}) if fl else e
+
+
 def to_frac(v):
     v = sympy.nsimplify(v) if not v.is_Rational else v
     if v.is_Rational:
@@ -150,13 +170,13 @@ def oracle_jac(exprs_by_name: dict, out_names, wrt_names, sub):
     """[[d out_i / d wrt_j]] evaluated exactly, rows/cols in the given name orders"""
     rows = []
     for o in out_names:
-        e = sympy.sympify(exprs_by_name[o])
+        e = exactify(exprs_by_name[o])
         rows.append([to_frac(sympy.diff(e, sympy.Symbol(w)).xreplace(sub)) for w in wrt_names])
     return rows
 
 
 def oracle_vals(exprs_by_name: dict, names, sub):
-    return [to_frac(sympy.sympify(exprs_by_name[n]).xreplace(sub)) for n in names]
+    return [to_frac(exactify(exprs_by_name[n]).xreplace(sub)) for n in names]
 
 
 def names_of(d):
